@@ -265,6 +265,122 @@ def _thread_returns(d, first_new_block, dest, target, ret_local):
             t["target"] = len(d["blocks"]) - 1
 
 
+def _known_of(rv):
+    if rv.get("agg") == "adt" and isinstance(rv.get("vi"), int):
+        return ("variant", rv["vi"])
+    c_ = (rv.get("use") or {}).get("c") if set(rv) <= {"use"} else None
+    if isinstance(c_, dict):
+        if "bool" in c_:
+            return int(bool(c_["bool"]))
+        if "int" in c_ and isinstance(c_["int"], int):
+            return c_["int"]
+    return None
+
+
+def _mentions(o, l):
+    if isinstance(o, dict):
+        for k, v in o.items():
+            if k in ("cp", "mv", "ref", "discr", "d", "l", "drop", "idx") and v == l:
+                return True
+            if _mentions(v, l):
+                return True
+    elif isinstance(o, list):
+        return any(_mentions(v, l) for v in o)
+    return False
+
+
+def thread_known(d, max_clones=80):
+    """General jump threading (tail duplication with constant folding): a block that only copies / takes the discriminant of /
+    negates a local and switches on the result is duplicated for every predecessor whose last action is to give that local a
+    value of known discriminant (`x = Ok(..)`, `x = Kind::A`, `x = const true`); the duplicate jumps straight to the target the
+    switch would take.  After desugaring `r.map_err(f)?` this removes the artificial join between building `Err(f(e))` and
+    testing for it again, so that control dependence says what the source says."""
+    clones = 0
+    changed = True
+    while changed and clones < max_clones:
+        changed = False
+        for S in range(len(d["blocks"])):
+            blkS = d["blocks"][S]
+            if blkS.get("cleanup") or "switch" not in blkS["t"] or len(blkS["s"]) > 6 or blkS.get("threaded_clone"):
+                continue
+            ok = True
+            for st in blkS["s"]:
+                if "d" not in st or not isinstance(st["d"], int):
+                    ok = False
+                    break
+                r = st["r"]
+                if not (set(r) <= {"use"} or r.get("un") == "Not" or "discr" in r):
+                    ok = False
+                    break
+            if not ok:
+                continue
+            # the local the block inspects first
+            x = None
+            if blkS["s"]:
+                r0 = blkS["s"][0]["r"]
+                if set(r0) <= {"use"}:
+                    p_ = r0["use"].get("mv", r0["use"].get("cp")) if isinstance(r0["use"], dict) else None
+                    x = p_ if isinstance(p_, int) else None
+                elif "discr" in r0 and isinstance(r0["discr"], int):
+                    x = r0["discr"]
+                elif r0.get("un") == "Not":
+                    p_ = r0["a"].get("mv", r0["a"].get("cp")) if isinstance(r0["a"], dict) else None
+                    x = p_ if isinstance(p_, int) else None
+            else:
+                sw_ = blkS["t"]["switch"]
+                p_ = sw_.get("mv", sw_.get("cp")) if isinstance(sw_, dict) else None
+                x = p_ if isinstance(p_, int) else None
+            if x is None:
+                continue
+            for P in range(len(d["blocks"])):
+                blkP = d["blocks"][P]
+                if P == S or blkP.get("cleanup") or blkP["t"].get("goto") != S or not blkP["s"]:
+                    continue
+                js = [j for j, st in enumerate(blkP["s"]) if st.get("d") == x]
+                if not js:
+                    continue
+                j = js[-1]
+                if any(_mentions(st2, x) for st2 in blkP["s"][j + 1:]):
+                    continue
+                known = _known_of(blkP["s"][j]["r"])
+                if known is None:
+                    continue
+                vals = {x: known}
+                for st in blkS["s"]:
+                    r = st["r"]
+                    sv = None
+                    if set(r) <= {"use"}:
+                        p_ = r["use"].get("mv", r["use"].get("cp")) if isinstance(r["use"], dict) else None
+                        sv = vals.get(p_) if isinstance(p_, int) else _known_of(r)
+                    elif r.get("un") == "Not":
+                        p_ = r["a"].get("mv", r["a"].get("cp")) if isinstance(r["a"], dict) else None
+                        b_ = vals.get(p_) if isinstance(p_, int) else None
+                        sv = int(not b_) if isinstance(b_, int) else None
+                    elif "discr" in r and isinstance(r["discr"], int):
+                        b_ = vals.get(r["discr"])
+                        sv = b_[1] if isinstance(b_, tuple) else None
+                    if sv is not None:
+                        vals[st["d"]] = sv
+                    else:
+                        vals.pop(st["d"], None)
+                sw_ = blkS["t"]["switch"]
+                p_ = sw_.get("mv", sw_.get("cp")) if isinstance(sw_, dict) else None
+                folded = vals.get(p_) if isinstance(p_, int) else None
+                if not isinstance(folded, int):
+                    continue
+                tg = dict((v, b2) for v, b2 in blkS["t"]["targets"]).get(folded, blkS["t"]["otherwise"])
+                d["blocks"].append({"s": [dict(st, x="thread:" + str(S)) for st in copy.deepcopy(blkS["s"])],
+                                    "t": {"goto": tg, "ln": blkS["t"].get("ln"), "folded_switch": True}, "threaded_clone": True})
+                blkP["t"] = {"goto": len(d["blocks"]) - 1, "ln": blkP["t"].get("ln")}
+                clones += 1
+                changed = True
+                if clones >= max_clones:
+                    break
+            if clones >= max_clones:
+                break
+    return clones
+
+
 def expand(crate, body, depth=2, pred=None, max_callee_blocks=80, max_total_blocks=1500, lower=False):
     """Body with local callees inlined (`pred(callee_body)` may veto).  The result keeps the caller's identity (id, name,
     file, line) and records the inlined functions in d["inlined"].  With `lower`, the std Option/Result/bool combinators are
@@ -344,6 +460,8 @@ def expand(crate, body, depth=2, pred=None, max_callee_blocks=80, max_total_bloc
         _thread_returns(d, bo, dest, target, lo)
         for i in range(bo, len(d["blocks"])):
             work.append((i, dep if is_closure else dep - 1, stack + (cb.id,)))
+    if lower:
+        thread_known(d)
     d["inlined"] = inlined
     d["lowered"] = lowered
     nb = Body(d, body.crate, body.facts)
